@@ -28,7 +28,8 @@ def analyse(ix, I, name):
         return f, data, sp, "function has %d return paths" % len(vals)
     dsym = Sym(params[0])
     meta = ("size", "len", "ndim", "shape", "dtype")
-    w = parse_wrapper(vals[0], lambda a: dsym in Rat.atom(a).atoms() and not (isinstance(a, Fn) and a.name in meta))
+    nsym = lambda ax: ("shape(%s)[%d]" % (params[0], ax),)
+    w = parse_wrapper(vals[0], lambda a: dsym in Rat.atom(a).atoms() and not (isinstance(a, Fn) and a.name in meta), nsym)
     return f, data, sp, w if not isinstance(w, Wrapper) else (w, vals[0])
 
 
